@@ -16,6 +16,7 @@ import GeoProofs.Lemmas.C05PConvex
 import GeoProofs.Lemmas.C05PRotate
 import GeoProofs.Lemmas.C05PFloat
 import GeoProofs.Lemmas.TRANArea
+import GeoProofs.Lemmas.SMLXPivot
 import Mathlib.Tactic.NormNum
 
 namespace Geo.Proofs.C05
@@ -1004,6 +1005,79 @@ theorem windingOrder_rotate_pinched_witness :
     let r : List Pt := [⟨0, 0⟩, ⟨2, 1⟩, ⟨2, 2⟩, ⟨0, 0⟩, ⟨1, 3⟩, ⟨2, 3⟩, ⟨0, 0⟩]
     windingOrder r = some .ccw ∧ windingOrder (rotate1 r) = some .cw := by
   decide +kernel
+
+/-! ### Simple rings: `PivotOnce`, reversal, start vertex and `orient` without extra hypothesis
+
+`ringSimple` (GeoModel/Valid.lean) is the domain of the property ("all simple closed rings"): closed, at least
+three distinct vertices after merging repeated consecutive coordinates, edges meet only in the common vertex of
+consecutive ones. On that domain the hypothesis `PivotOnce` of the `_partial` theorems above is discharged: the
+merged ring visits every point once (GeoProofs/Lemmas/SMLXSimple.lean), so every point has one predecessor and
+one successor along the ring, and the pivot triple of `winding_order` — the least point with the two ring edges
+at it — is the same for every start vertex and is swapped by reversal (GeoProofs/Lemmas/SMLXPivot.lean).
+Repeated consecutive coordinates (for which `PivotOnce r` itself is false when the repeated point is the least
+one) are covered. -/
+
+/-- [T] `ringSimple r → PivotOnce (merged r)`: after merging repeated consecutive coordinates a simple ring
+visits its lexicographically least point once. -/
+theorem pivotOnce_of_simple (r : List Pt) (h : ringSimple r = true) : PivotOnce (dedupConsecutive r) :=
+  Geo.Proofs.SMLX.pivotOnce_dedup_of_simple h
+
+/-- [T] `ringSimple r → PivotOnce r` for a ring without repeated consecutive coordinates. (With a repeated
+least point, e.g. `[p, p, a, b, p]`, `PivotOnce r` is false although the ring is simple; the theorems below do
+not need it.) -/
+theorem pivotOnce_of_simple_norepeat (r : List Pt) (h : ringSimple r = true)
+    (hd : dedupConsecutive r = r) : PivotOnce r := by
+  have := pivotOnce_of_simple r h
+  rwa [hd] at this
+
+example : PivotOnce [⟨1, 0⟩, ⟨2, 2⟩, ⟨0, 1⟩, ⟨1, 0⟩] :=
+  pivotOnce_of_simple_norepeat _ (by decide +kernel) (by decide +kernel)
+
+/-- [T] `windingOrder_reverse` for simple rings (the full statement of `windingOrder_reverse_partial` on the
+property's domain): reversing a simple ring flips `winding_order`. -/
+theorem windingOrder_reverse_simple (r : List Pt) (h : ringSimple r = true) :
+    windingOrder r.reverse = (windingOrder r).map WO.flip :=
+  Geo.Proofs.SMLX.windingOrder_reverse_simple h
+
+/-- a simple ring whose least point is repeated (`PivotOnce` fails for it) -/
+example : windingOrder ([⟨0, 0⟩, ⟨0, 0⟩, ⟨3, 1⟩, ⟨1, 3⟩, ⟨0, 0⟩] : List Pt).reverse =
+    (windingOrder [⟨0, 0⟩, ⟨0, 0⟩, ⟨3, 1⟩, ⟨1, 3⟩, ⟨0, 0⟩]).map WO.flip :=
+  windingOrder_reverse_simple _ (by decide +kernel)
+
+/-- [T] `windingOrder_rotate` for simple rings (the full statement of `windingOrder_rotate_partial` on the
+property's domain): moving the start vertex of a simple ring by any number of steps does not change
+`winding_order`. -/
+theorem windingOrder_rotate_simple (k : Nat) (r : List Pt) (h : ringSimple r = true) :
+    windingOrder (rotateN k r) = windingOrder r :=
+  Geo.Proofs.SMLX.windingOrder_rotateN_simple k h
+
+example : windingOrder (rotateN 3 [⟨0, 0⟩, ⟨0, 0⟩, ⟨3, 1⟩, ⟨1, 3⟩, ⟨0, 0⟩]) =
+    windingOrder [⟨0, 0⟩, ⟨0, 0⟩, ⟨3, 1⟩, ⟨1, 3⟩, ⟨0, 0⟩] :=
+  windingOrder_rotate_simple 3 _ (by decide +kernel)
+
+/-- [T] `orient_post` for polygons whose rings are simple (the full statement of `orient_post_partial` on the
+property's domain; see `orient_exact_simple` below for the sharper form "equals the requested winding"). -/
+theorem orient_post_simple (d : Direction) (p : Poly) (he : ringSimple p.ext = true)
+    (hi : ∀ h ∈ p.ints, ringSimple h = true) :
+    windingOrder (orientPoly d p).ext ≠ some (WO.flip d.extW) ∧
+      ∀ h ∈ (orientPoly d p).ints, windingOrder h ≠ some (WO.flip d.intW) :=
+  orient_post_of_rev d p (by simp [SM.isClosed, Geo.Proofs.C12.closed_of_simple he])
+    (fun h hh => by simp [SM.isClosed, Geo.Proofs.C12.closed_of_simple (hi h hh)])
+    (windingOrder_reverse_simple _ he) (fun h hh => windingOrder_reverse_simple _ (hi h hh))
+
+/-- [T] `orient_idem` for polygons whose rings are simple (the full statement of `orient_idem_partial` on the
+property's domain). -/
+theorem orient_idem_simple (d : Direction) (p : Poly) (he : ringSimple p.ext = true)
+    (hi : ∀ h ∈ p.ints, ringSimple h = true) :
+    orientPoly d (orientPoly d p) = orientPoly d p :=
+  orient_idem_of_rev d p (by simp [SM.isClosed, Geo.Proofs.C12.closed_of_simple he])
+    (fun h hh => by simp [SM.isClosed, Geo.Proofs.C12.closed_of_simple (hi h hh)])
+    (windingOrder_reverse_simple _ he) (fun h hh => windingOrder_reverse_simple _ (hi h hh))
+
+example : orientPoly .default (orientPoly .default
+      ⟨[⟨0, 0⟩, ⟨0, 0⟩, ⟨0, 9⟩, ⟨9, 9⟩, ⟨9, 0⟩, ⟨0, 0⟩], [[⟨1, 1⟩, ⟨5, 2⟩, ⟨2, 5⟩, ⟨1, 1⟩]]⟩) =
+    orientPoly .default ⟨[⟨0, 0⟩, ⟨0, 0⟩, ⟨0, 9⟩, ⟨9, 9⟩, ⟨9, 0⟩, ⟨0, 0⟩], [[⟨1, 1⟩, ⟨5, 2⟩, ⟨2, 5⟩, ⟨1, 1⟩]]⟩ :=
+  orient_idem_simple _ _ (by decide +kernel) (by decide +kernel)
 
 /-! ### Convex rings: reversal, `orient` without `PivotOnce`
 
